@@ -2,7 +2,12 @@
 //! Every subcommand reads scenario lines (spec -> impl) or writes NDJSON traces (impl -> spec).
 //! A panic in code under test is data: it is caught and reported as an outcome, never a tool error.
 
+mod c10;
 mod c11;
+mod refcodec;
+mod refvmess;
+mod ssudp;
+mod sut;
 mod util;
 
 fn main() {
@@ -13,6 +18,8 @@ fn main() {
     }
     let rest = &args[2..];
     let res = match args[1].as_str() {
+        "c10-replay" => c10::replay(rest),
+        "c10-record" => c10::record(rest),
         "c11-replay" => c11::replay(rest),
         "c11-record" => c11::record(rest),
         other => Err(anyhow::anyhow!("unknown subcommand {other}")),
